@@ -3,9 +3,11 @@
 //! Exit 0: property held on everything explored (known findings are printed, not alarms);
 //! exit 1: `VIOLATION property=<id> replay=<path>` printed; exit 2: machinery error (never a verdict).
 
+mod alloc_count;
 mod engine;
 mod known;
 mod props;
+mod refcodec;
 mod util;
 #[allow(dead_code)]
 mod model;
@@ -17,6 +19,9 @@ use serde_json::{json, Value};
 use std::collections::BTreeMap;
 use std::path::PathBuf;
 use std::time::Instant;
+
+#[global_allocator]
+static GLOBAL: alloc_count::CountingAlloc = alloc_count::CountingAlloc;
 
 fn verif_root() -> PathBuf {
     PathBuf::from(std::env::var("VERIF_ROOT").unwrap_or_else(|_| "/verif".to_string()))
